@@ -26,14 +26,16 @@ type Scenario struct {
 	Revs []RevSpec
 	// claims present in the API and the claim cache: list of names
 	PVCs []string
+	// claims that exist in the API but have not reached the claim cache yet
+	PVCsApiOnly []string
 	// what an uncached read of the set returns
 	FreshAbsent, FreshOtherUID, FreshDeleting bool
 	// set missing from the cache
 	Uncached bool
 	// pods (by ordinal) that the cache still shows although they are gone from the API / that were re-created since
 	ApiGone, ApiReborn []int
-	Dom      []int   // index of the scenario in its domain (for replay)
-	Faults   []Fault // injected into the reconcile that follows Load
+	Dom                []int   // index of the scenario in its domain (for replay)
+	Faults             []Fault // injected into the reconcile that follows Load
 	// Raw, if set, rewrites the built set object (used to produce shapes only the CRD schema admits)
 	Raw func(*apps.StatefulSet) *apps.StatefulSet
 }
@@ -65,6 +67,9 @@ func (w *World) Load(sc *Scenario) {
 		e.api.Put(RPVC, &v1.PersistentVolumeClaim{ObjectMeta: metav1.ObjectMeta{Name: n, Namespace: NS}})
 	}
 	e.CacheSyncAll(false)
+	for _, n := range sc.PVCsApiOnly {
+		e.api.Put(RPVC, &v1.PersistentVolumeClaim{ObjectMeta: metav1.ObjectMeta{Name: n, Namespace: NS}})
+	}
 	for _, o := range sc.ApiGone {
 		e.api.Remove(RPods, fmt.Sprintf("%s-%d", set.Name, o))
 	}
